@@ -24,6 +24,9 @@ def check(model, R, tier):
                          'no division by / log of a value that may underflow to 0 (abstract interpretation over a sign/magnitude domain with log-sum-exp shift facts)', floor=len(kernels))
     R.rule('C09.EPSCLIP', 'an underflowing probability is never guarded as log(p + epsilon) or 1/(p + epsilon) inside these kernels (the guard replaces the true value by log(1e-12))', floor=len(kernels))
     R.analysed['kernels'] = kernels
+    from sa.rules_defn import check_defn
+    check_defn(model, R, 'C09', ['sigmoid', 'softmax', 'log_softmax', 'bce_with_logits_loss', 'selu', 'cross_entropy_loss'],
+               'agreement with the exactly computed result presupposes that the stabilised formula IS the mathematical one')
     for q in kernels:
         f = model.func(q)
         dom = OverflowDomain(ROLES)
